@@ -248,3 +248,51 @@ func D_C12_1() string {
 	}
 	return out
 }
+
+// H_C12_dup_patches: a file submitted again with identical content is dropped together with ALL
+// the unnamed patches that follow it (0..3 of them); nothing of it reaches another file and the
+// batch is not rejected, wherever the duplicate stands in its batch.
+func H_C12_dup_patches() {
+	s := func(x string) *string { return &x }
+	mk := func(name, tag string) *plugin.Generated {
+		return &plugin.Generated{Name: s(name), Content: "// " + tag + "\n// " + zzMark("p") + "\n// " + zzMark("q") + "\nend\n"}
+	}
+	fm := NewFileManager(backend.DummyLogFunc())
+	zzrt.Assert(fm.Feed("be", []*plugin.Generated{mk("a.go", "A"), mk("b.go", "B")}) == nil, "first batch")
+	var batch []*plugin.Generated
+	lead := zzrt.Choose("lead", 3) // what precedes the duplicate in its batch: nothing / a new file / a patch to b.go
+	switch lead {
+	case 1:
+		batch = append(batch, mk("c.go", "C"))
+	case 2:
+		batch = append(batch, &plugin.Generated{Name: s("b.go"), InsertionPoint: s("p"), Content: "PB"})
+	}
+	batch = append(batch, mk("a.go", "A")) // identical content: a duplicate
+	n := zzrt.Choose("patches", 4)
+	for i := 0; i < n; i++ {
+		pt := []string{"p", "q"}[zzrt.Choose("point", 2)]
+		batch = append(batch, &plugin.Generated{InsertionPoint: s(pt), Content: "DUP" + string(rune('0'+i)) + string([]byte{zzrt.Byte("x")})})
+	}
+	tail := zzrt.Bool("tail") // a further new file after the patches
+	if tail {
+		batch = append(batch, mk("d.go", "D"))
+	}
+	err := fm.Feed("p", batch)
+	zzrt.Assert(err == nil, "a duplicate with its patches is not an error")
+	res := fm.BuildResponse()
+	want := 2
+	if lead == 1 {
+		want++
+	}
+	if tail {
+		want++
+	}
+	zzrt.Assert(len(res.Contents) == want, "the duplicate adds no output file")
+	for _, c := range res.Contents {
+		zzrt.Assert(!strings.Contains(c.Content, "DUP"), "a patch of the dropped duplicate reached "+c.GetName())
+		if c.GetName() == "b.go" {
+			zzrt.Assert(strings.Contains(c.Content, "PB") == (lead == 2), "the patch addressed to b.go is applied")
+		}
+	}
+	zzrt.Cover("end")
+}
